@@ -10,9 +10,9 @@
    Three clauses of the property are REFUTED by the faithful model and by /repo (known findings):
      - simplify pre-merges the user's lines with merge(inclusive=True) (symbolic.absval), a union table;
      - solving a line for a variable that occurs as a divisor introduces a new divisor whose zero is dropped;
-     - an '=' / '!=' line in which all variables cancel is returned as '' whatever its truth value
-       (not expressible in the isolate model: isolate returns None there, see C12_isolate_none_zero_coeff).
-   For each the true weaker statement is proved as [_partial]. *)
+     - an '=' / '!=' line in which all variables cancel is returned as '' whatever its truth value.
+   For each the true weaker statement is proved as [_partial].  A fourth known finding (the test-point based flip
+   decision evaluates constants beyond float range to inf/nan) concerns float evaluation and is outside the model. *)
 From Coq Require Import List ZArith QArith Bool.
 From MV Require Import Pure.SymExpr Pure.Symbolic Pure.Symbolic_Proofs.
 Import ListNotations.
@@ -118,6 +118,37 @@ Theorem C12_simplify_model_partial : forall lines targets cs,
 Proof. exact simplify_model_partial. Qed.
 Print Assumptions C12_simplify_model_partial.
 
+(* ---- what simplify does to the user's lines before isolating (inclusive pre-merge, cancelling '='/'!=' lines dropped).
+   FULL statement (refuted):  forall lines e, holds_sys e (simplify_pre lines) <-> holds_sys e lines *)
+Theorem C12_degenerate_sound : forall r b, degenerate r = Some b -> forall e, holds e r <-> b = true.
+Proof. exact degenerate_sound. Qed.
+Print Assumptions C12_degenerate_sound.
+
+Theorem C12_simplify_pre_refuted : exists lines e,
+  no_opposing lines = true /\ holds_sys e (simplify_pre lines) /\ ~ holds_sys e lines.
+Proof. exact simplify_pre_refuted. Qed.
+Print Assumptions C12_simplify_pre_refuted.
+
+Theorem C12_simplify_pre_partial : forall lines, no_opposing lines = true -> drops_only_true lines = true ->
+  forall e, holds_sys e (simplify_pre lines) <-> holds_sys e lines.
+Proof. exact simplify_pre_partial. Qed.
+Print Assumptions C12_simplify_pre_partial.
+
+(* ---- the verified rewriting step used by the per-program certificates: clearing a variable divisor *)
+Theorem C12_clear_divisor_pos : forall e d r r', clear_rel d r = Some r' -> 0 < e d -> (holds e r <-> holds e r').
+Proof. exact clear_pos. Qed.
+Print Assumptions C12_clear_divisor_pos.
+
+Theorem C12_clear_divisor_neg : forall e d r r', clear_rel d r = Some r' -> e d < 0 ->
+  (holds e r <-> holds e (with_cmp r' (flipc (rcmp r)))).
+Proof. exact clear_neg. Qed.
+Print Assumptions C12_clear_divisor_neg.
+
+Theorem C12_clear_divisor_zero : forall e d r r', clear_rel d r = Some r' -> rel_divfree r = false -> e d == 0 ->
+  (holds e r <-> False).
+Proof. exact clear_zero. Qed.
+Print Assumptions C12_clear_divisor_zero.
+
 (* ---- linear_symbolic / symbolic_bounds: the text holds exactly where the matrices / bounds hold *)
 Theorem C12_text_of_matrix_sound : forall A b G h s, text_of_matrix A b G h = Some s ->
   forall e, holds_sys e s <->
@@ -156,7 +187,9 @@ Example C12_nonvacuous :
   no_opposing [r; Rel (Var 1) Ge (Cst 0)] = true /\
   (exists s, text_of_matrix [[1; 2]] [3] [[1; 0]] [5] = Some s /\ length s = 2%nat) /\
   (exists s, text_of_bounds [Some (-1); None] [Some 1; Some 2] = Some s /\ length s = 3%nat) /\
-  divfree (Add (Var 0) (Cst 2)) = true.
+  divfree (Add (Var 0) (Cst 2)) = true /\
+  drops_only_true [r; Rel (Var 0) Eq (Var 0)] = true /\ dropped (Rel (Var 0) Eq (Var 0)) = true /\
+  (exists r', clear_rel 1 (Rel (Div (Var 0) (Var 1)) Lt (Cst 3)) = Some r' /\ rel_divfree r' = true).
 Proof.
   cbv zeta. repeat split; try (eexists; split; [vm_compute; reflexivity|]); vm_compute; repeat split; reflexivity.
 Qed.
